@@ -49,6 +49,8 @@ AttrCases == {
     [id |-> "rename_digit_first",  hasRename |-> TRUE,  rename |-> <<"1","s","t">>, skip |-> FALSE, onVariant |-> TRUE],
     [id |-> "rename_quote",        hasRename |-> TRUE,  rename |-> <<"q","\"","q">>, skip |-> FALSE, onVariant |-> TRUE],
     [id |-> "rename_contains_skip",hasRename |-> TRUE,  rename |-> <<"s","k","i","p","_","m","e">>, skip |-> FALSE, onVariant |-> TRUE],
+    \* a rename that spells the identifier itself: exempts the item from the container's rename_all
+    [id |-> "rename_identity",     hasRename |-> TRUE,  rename |-> <<>>, skip |-> FALSE, onVariant |-> TRUE],
     [id |-> "rename_is_rename_all",hasRename |-> TRUE,  rename |-> <<"r","e","n","a","m","e","_","a","l","l">>, skip |-> FALSE, onVariant |-> TRUE],
     [id |-> "skip",                hasRename |-> FALSE, rename |-> <<>>, skip |-> TRUE,  onVariant |-> FALSE],
     [id |-> "skip_ser_if",         hasRename |-> FALSE, rename |-> <<>>, skip |-> FALSE, onVariant |-> FALSE],
@@ -84,10 +86,12 @@ AttrListCases ==
 AttrIdentsF == {<<"u","s","e","r","_","n","a","m","e">>, <<"i","d">>, <<"x","1","_","y">>}
 AttrIdentsV == {<<"I","n","P","r","o","g","r","e","s","s">>, <<"O","k">>, <<"H","T","T","P","S","e","r","v","e","r">>}
 AttrCasesAll ==
-    {[kind |-> "field", rule |-> r, ident |-> s, attr |-> a.id, alist |-> <<>>, hasRename |-> a.hasRename, rename |-> a.rename, skip |-> a.skip]
+    {[kind |-> "field", rule |-> r, ident |-> s, attr |-> a.id, alist |-> <<>>, hasRename |-> a.hasRename,
+      rename |-> (IF a.id = "rename_identity" THEN s ELSE a.rename), skip |-> a.skip]
         : r \in AllRules, s \in AttrIdentsF, a \in AttrCases}
     \cup
-    {[kind |-> "variant", rule |-> r, ident |-> s, attr |-> a.id, alist |-> <<>>, hasRename |-> a.hasRename, rename |-> a.rename, skip |-> a.skip]
+    {[kind |-> "variant", rule |-> r, ident |-> s, attr |-> a.id, alist |-> <<>>, hasRename |-> a.hasRename,
+      rename |-> (IF a.id = "rename_identity" THEN s ELSE a.rename), skip |-> a.skip]
         : r \in AllRules, s \in AttrIdentsV, a \in {x \in AttrCases : x.onVariant}}
     \cup AttrListCases
 
